@@ -440,10 +440,15 @@ func (c *Ctx) konst(pkg, name string) types.Object {
 	return o
 }
 
-// one returns the single site or panics as an anchor error (count drift).
+// one returns the single site of a required construct inside an already
+// resolved function. Absence (or duplication) of a required step is a
+// violation of the obligation, not a moved anchor: the function was found, the
+// step the property relies on was not.
+type missingStep struct{ msg string }
+
 func one[T any](c *Ctx, what string, xs []T) T {
 	if len(xs) != 1 {
-		panic(anchorErr{fmt.Sprintf("expected exactly one %s, found %d", what, len(xs))})
+		panic(missingStep{fmt.Sprintf("expected exactly one %s, found %d", what, len(xs))})
 	}
 	return xs[0]
 }
